@@ -16,6 +16,9 @@ impl<T> Mutex<T> {
     pub fn lock(&self) -> MutexGuard<'_, T> {
         self.0.lock()
     }
+    pub fn try_lock(&self) -> Option<MutexGuard<'_, T>> {
+        self.0.try_lock()
+    }
 }
 
 pub struct RwLock<T>(simsync::RwLock<T>);
@@ -28,6 +31,12 @@ impl<T> RwLock<T> {
     }
     pub fn write(&self) -> RwLockWriteGuard<'_, T> {
         self.0.write()
+    }
+    pub fn try_read(&self) -> Option<RwLockReadGuard<'_, T>> {
+        self.0.try_read()
+    }
+    pub fn try_write(&self) -> Option<RwLockWriteGuard<'_, T>> {
+        self.0.try_write()
     }
     /// Harness-only (see `simsync::RwLock::peek`).
     pub unsafe fn sim_peek(&self) -> &T {
